@@ -99,6 +99,11 @@ fn render(line: &Value, sp: &Spec, r: &mut rand::rngs::StdRng) -> (String, Optio
     body.push_str(&format!("    <joint name=\"{}\" type=\"fixed\">\n      <origin xyz=\"0 0 0\" rpy=\"0 0 0\"/>\n      <parent link=\"link_6\"/>\n      <child link=\"flange\"/>\n    </joint>\n", flange));
     match line["copies"].as_str().unwrap() {
         "identical-duplicate" => { for j in &joints { body.push_str(j); } }
+        // the same robot a second time under another name prefix (a left and a right arm from one macro); with an
+        // explicit name list the copy keeps the names (the list would not tell the two apart otherwise)
+        "duplicate-other-prefix" => {
+            for j in &joints { body.push_str(&if naming == "explicit" { j.clone() } else { j.replacen("<joint name=\"", "<joint name=\"r2_", 1) }); }
+        }
         "second-robot" => {
             let other = joint_names("explicit", "rt");
             for j in 0..6 {
@@ -236,7 +241,9 @@ pub fn replay(input: &str, output: &str) {
         if id % 16 == 0 {
             let mut faults: Vec<(&str, String)> = Vec::new();
             let first = format!("name=\"{}\"", joint_names(line["naming"].as_str().unwrap(), "lf")[2]);
-            faults.push(("missing-joint", xml.replacen(&first, "name=\"somethingelse\"", if line["copies"] == "identical-duplicate" { 2 } else { 1 })));
+            let second = first.replacen("name=\"", "name=\"r2_", 1);
+            faults.push(("missing-joint", xml.replacen(&first, "name=\"somethingelse\"", if line["copies"] == "identical-duplicate" || line["copies"] == "duplicate-other-prefix" { 2 } else { 1 })
+                .replacen(&second, "name=\"somethingelse\"", 1)));
             let mut cut = xml.len() * 2 / 3;
             while !xml.is_char_boundary(cut) { cut -= 1; }
             faults.push(("truncated-xml", xml[..cut].to_string()));
